@@ -173,8 +173,15 @@ Module Ex.
   Definition hok : bytes -> bytes -> option bool := fun _ _ => Some true.
   Definition d1 : bytes := [x61; x62; x63].
   Definition p1 := mkcid 1 85 0 d1.                        (* raw, identity *)
-  Definition p2 := mkcid 0 112 18 (zeros 32).              (* CIDv0 *)
-  Definition p3 := mkcid 1 113 18 (x01 :: zeros 31).       (* dag-cbor, sha2-256 *)
+  (* real digests, so that the same archive is a differential case (corpus/C14/example-*.case) *)
+  Definition dig2 : bytes := (* sha2-256 of 130 zero bytes *)
+    [xe5; x5a; x5c; x27; x73; x6a; x87; x61; xc8; xe9; x6a; xce; xc0; x72; x10; x23;
+     x25; xe0; x8c; xb2; xd0; xdb; xb4; xd4; x70; x2c; xfe; x38; xf8; xab; x07; x09].
+  Definition dig3 : bytes := (* sha2-256 of the empty string *)
+    [xe3; xb0; xc4; x42; x98; xfc; x1c; x14; x9a; xfb; xf4; xc8; x99; x6f; xb9; x24;
+     x27; xae; x41; xe4; x64; x9b; x93; x4c; xa4; x95; x99; x1b; x78; x52; xb8; x55].
+  Definition p2 := mkcid 0 112 18 dig2.                    (* CIDv0 *)
+  Definition p3 := mkcid 1 113 18 dig3.                    (* dag-cbor, sha2-256 *)
   Definition c1 := cid_enc p1. Definition c2 := cid_enc p2. Definition c3 := cid_enc p3.
   Definition bs : list block := [(c1, d1); (c2, zeros 130); (c3, [])].
   Definition roots : list bytes := [c3; c1].
@@ -236,4 +243,27 @@ Module Ex.
     show (brp_run hok dec_header_canon o false (v2_file 7 9 1000 pad (enc_payload roots bs) trailer) w)
     = Some (2, 124, [(135, 135, Some (70, 124, 3)); (301, 301, None); (338, 338, Some (247, 301, 0))], Some EEof, 338).
   Proof. vm_compute. reflexivity. Qed.
+
+  (* a CARv1 cut right after a section's length varint (0x4e): SkipNext does not report a clean
+     end (corpus/C14/skipnext-trunc-after-varint.case), while at a real end it does *)
+  Definition cut : bytes := ld (enc_header (Some []) 1) ++ [x4e].
+  Example c14_skip_cut_after_varint :
+    match brp_run hok dec_header_canon o false cut [false] with
+    | Ok (_, _, _, (steps, (e, _))) => (steps, e) = ([], Some EUnexpectedEof)
+    | Err _ => False
+    end.
+  Proof. vm_compute. reflexivity. Qed.
+  Example c14_skip_at_real_end :
+    match brp_run hok dec_header_canon o false (ld (enc_header (Some []) 1)) [false] with
+    | Ok (_, _, st0, (steps, (e, _))) => (steps, e) = ([], Some EEof) /\ vis st0 = []
+    | Err _ => False
+    end.
+  Proof. vm_compute. split; reflexivity. Qed.
 End Ex.
+
+Theorem c14_eof_clean hok o st :
+  (brp_next hok o st = Err EEof ->
+     vis st = [] \/ (o_zeof o = true /\ exists rest n, read_uv (vis st) = VOk 0 rest n)) /\
+  (brp_skip o st = Err EEof ->
+     vis st = [] \/ (o_zeof o = true /\ exists rest n, read_uv (vis st) = VOk 0 rest n)).
+Proof. split; [apply brp_next_eof_clean|apply brp_skip_eof_clean]. Qed.
